@@ -21,12 +21,18 @@ def N1(ctx: Ctx) -> RuleResult:
     targets = [
         ('HplExpression', '_type_check'), ('HplExpression', 'cast'), ('FunctionSignature', 'accepts'), ('FunctionDefinition', 'check_arguments'),
         ('HplBinaryOperator', '__attrs_post_init__'), ('HplPredicateExpression', '_all_refs_same_type'), ('HplPredicateExpression', '_check_expression'),
-        ('HplDataAccess', 'type_check_references'), ('HplQuantifier', '_check_domain'), ('HplQuantifier', '_check_condition_is_bool'),
+        ('HplDataAccess', 'type_check_references'),
     ]
+    # the validators of the quantifier's typed children, however many methods they are split into
+    qc = ctx.model.cls('HplQuantifier', 'N1')
+    qv = [(qc.name, v.name) for fld in ('domain', 'condition') for v in qc.all_validators(fld)]
+    if len({x for x in qv}) < 2:
+        raise AnalysisError('N1', 'HplQuantifier has no validators on domain / condition (anchor vanished)')
+    targets += list(dict.fromkeys(qv))
     n = 0
     for cname, mname in targets:
         c = ctx.model.cls(cname, 'N1')
-        fi = c.methods.get(mname)
+        fi = c.methods.get(mname) or c.resolve(mname)
         if fi is None:
             raise AnalysisError('N1', f'{cname}.{mname} not found (anchor vanished)')
         n += 1
